@@ -340,6 +340,7 @@ class Lattice(keras.layers.Layer):
     self.kernel_regularizer = []
     if kernel_regularizer:
       if (callable(kernel_regularizer) or
+          isinstance(kernel_regularizer, (six.string_types, dict)) or
           (isinstance(kernel_regularizer, tuple) and
            isinstance(kernel_regularizer[0], six.string_types))):
         kernel_regularizer = [kernel_regularizer]
